@@ -14,6 +14,26 @@ inductive ItemRed where | all | any | none
 inductive TruthFlag where | ifAll | ifAny | none
   deriving DecidableEq, Repr
 
+/-- what `__bool__` does: all() / any() of "non-zero and not masked" over the elements, or ValueError -/
+inductive BoolOut where | allNonzero | anyNonzero | raises
+  deriving DecidableEq, Repr
+
+/-- documented truth testing: results of `==` and of the ordered comparisons test as all(), results of `!=` as any();
+    any other object only when it has no shape and is not masked -/
+def boolSpec (tAll tAny shaped masked : Bool) : BoolOut :=
+  match tAll, tAny, shaped, masked with
+  | true, _, _, _ => .allNonzero
+  | false, true, _, _ => .anyNonzero
+  | false, false, true, _ => .raises
+  | false, false, false, true => .raises
+  | false, false, false, false => .allNonzero
+
+/-- the outcome applied to the elements (`as_mask_where_nonzero` = stored value non-zero and not masked) -/
+def BoolOut.run : BoolOut → List Cell → Option Bool
+  | .allNonzero, xs => some (xs.all fun c => c.v && !c.m)
+  | .anyNonzero, xs => some (xs.any fun c => c.v && !c.m)
+  | .raises, _ => none
+
 /-- the documented table of `==` on one element, in terms of the raw whole-item comparison `c` -/
 def eqSpec (c sm am : Bool) : Bool :=
   match sm, am with
